@@ -36,8 +36,10 @@ rm -f $demo_path
 pkgs=$(git diff --name-only | grep '\.go$' | xargs -n1 dirname | sort -u)
 : > $dest/tests.json
 for p in $pkgs; do
-  case $p in sdk/*) (cd sdk && go test -json -count=1 -vet=off ./${p#sdk/}/ ) >> $dest/tests.json 2>/dev/null ;;
-  *) go test -json -count=1 -vet=off -timeout 40m ./$p/ >> $dest/tests.json 2>/dev/null ;; esac
+  # a package without test files of its own is exercised by the packages below it (sdk/physical -> sdk/physical/...)
+  sub=""; ls $p/*_test.go >/dev/null 2>&1 || sub="..."
+  case $p in sdk/*) (cd sdk && go test -json -count=1 -vet=off ./${p#sdk/}/$sub ) >> $dest/tests.json 2>/dev/null ;;
+  *) go test -json -count=1 -vet=off -timeout 40m ./$p/$sub >> $dest/tests.json 2>/dev/null ;; esac
 done
 python3 - "$dest" <<'PY' >> $log
 import json,sys
